@@ -71,11 +71,14 @@ func c18Inject(t *rapid.T, v, label string, utf8Like bool) string {
 	for i := 0; i < k; i++ {
 		pos := rapid.IntRange(0, len(rs)-1).Draw(t, label+"pos")
 		var r rune
-		switch rapid.IntRange(0, 3).Draw(t, label+"cls") {
+		switch rapid.IntRange(0, 4).Draw(t, label+"cls") {
 		case 0:
 			r = rune(rapid.SampledFrom([]int{0x81, 0x8D, 0x8F, 0x90, 0x9D}).Draw(t, label+"undef"))
 		case 1:
 			r = rune(rapid.IntRange(0x80, 0x9F).Draw(t, label+"c1"))
+		case 2:
+			// the top of the ASCII range and the first code points after it (off-by-one territory of hand-written decoders)
+			r = rune(rapid.SampledFrom([]int{0x7F, 0x7E, 0x80, 0xA0, 0xFF}).Draw(t, label+"edge"))
 		default:
 			r = rune(rapid.IntRange(0xA0, 0xFF).Draw(t, label+"hi"))
 		}
@@ -97,7 +100,11 @@ func genC18(t *rapid.T) c18Case {
 		c.Shape.XMLDecl = rapid.SampledFrom([]string{"ISO-8859-1", "windows-1252", "latin1", "UTF-8", "utf8", "us-ascii"}).Draw(t, "xmlDeclLabel")
 	}
 	utf8Like := rapid.IntRange(0, 5).Draw(t, "utf8Like") == 0
-	c.Recs = gen.DrawRecs(t, c.Shape, "r", 1, 5, gen.ValueOpts{ASCIIOnly: true, MaxLen: 8})
+	minRecs := 1
+	if c.Encoding == "utf-8" {
+		minRecs = 0 // also "a byte-order mark and nothing else"
+	}
+	c.Recs = gen.DrawRecs(t, c.Shape, "r", minRecs, 5, gen.ValueOpts{ASCIIOnly: true, MaxLen: 8})
 	for i := range c.Recs {
 		for j := range c.Recs[i].Vals {
 			if j == c.Shape.IntCol || (j == 0 && c.Shape.Filter) {
@@ -113,7 +120,7 @@ func genC18(t *rapid.T) c18Case {
 	}
 	// long ASCII run in front of high bytes: the decoded characters then straddle the 4096 / 8192 byte buffer boundaries
 	// of the readers stacked on the decoder
-	if len(c.Shape.Widths) == 0 && rapid.IntRange(0, 3).Draw(t, "padToBuffer") == 0 {
+	if len(c.Recs) > 0 && len(c.Shape.Widths) == 0 && rapid.IntRange(0, 3).Draw(t, "padToBuffer") == 0 {
 		col := -1
 		for j := range c.Recs[0].Vals {
 			if j != c.Shape.IntCol && !(j == 0 && c.Shape.Filter) {
